@@ -28,7 +28,7 @@ print(json.dumps(out))
 """ % os.path.join(VERIF, "harness")
 
 
-def run(chk, scs, R, light=False):
+def run(chk, scs, R, light=False, hashseeds=None):
     import tempfile
     from scripted import run_sim_impl
     base = [list(run_sim_impl(sc)[0]) for sc in scs]
@@ -40,7 +40,7 @@ def run(chk, scs, R, light=False):
         orders = [list(range(n)), list(reversed(range(n))), [0, 1, 0, 2, 1, 0][:max(1, min(6, n))]]
         if light:
             orders = orders[:1]
-        for hs in (("1", "random") if light else ("0", "1", "4242", "random")):
+        for hs in (hashseeds or (("1", "random") if light else ("0", "1", "4242", "random"))):
             for order in orders:
                 env = dict(os.environ, PYTHONHASHSEED=hs)
                 p = subprocess.run([sys.executable, "-c", CHILD, path, json.dumps(order)], capture_output=True, text=True,
